@@ -3,6 +3,6 @@ CONSTANTS
   StrictA = FALSE
   CheckCat = FALSE
   CheckOrder = FALSE
-INVARIANTS NoLedgerWrite TempNeverWritten Durable CrashRestores
+INVARIANTS NoLedgerWrite TempNeverWritten Durable CrashRestores CacheCoherent
 POSTCONDITION TraceAccepted
 CHECK_DEADLOCK FALSE
